@@ -163,6 +163,40 @@ def inst_explicit(m0, m1):
     return Instance(f"normalize_chunks[explicit {m0}x{m1}]", body, dict(blocks=(m0, m1)), unit="normalize_chunks")
 
 
+def inst_explicit_fractional():
+    """an explicit tuple of sizes given as floats, ((a0, a1),) with a0 + a1 == n: whatever is returned sums to n (sizes that
+    are whole numbers are kept as integers); sizes with a fractional part cannot be a layout -- refusing them is fine,
+    truncating them is not"""
+    def body(E):
+        w = W(E)
+        a = tuple(E.real(f"a{i}") for i in range(2))
+        n = E.int("n0", 1)
+        E.assume(AND(a[0] > 0, a[1] > 0, a[0] + a[1] == n))
+        try:
+            out = w.fn(CU, "normalize_chunks")((a,), (n,))
+        except ValueError:
+            E.ensure("whole-sizes-are-accepted", NOT(AND(*[v == v.__floor__() for v in a])))
+            return
+        E.ensure("one-axis", len(out) == 1)
+        E.ensure("sizes-sum-to-the-length", sum(out[0]) == n)
+
+    def api(values):
+        from dask_array._core_utils import normalize_chunks
+
+        def num(v):  # real-valued witnesses are handed over as [numerator, denominator]
+            return v[0] / v[1] if isinstance(v, (list, tuple)) else float(v)
+
+        a = tuple(num(values[f"a{i}"]) for i in range(2))
+        n = values["n0"]
+        try:
+            out = normalize_chunks((a,), (n,))
+        except ValueError:
+            return dict(ok=not all(v == int(v) for v in a), detail=f"normalize_chunks(({a},), ({n},)) raised ValueError")
+        return dict(ok=sum(out[0]) == n, detail=f"normalize_chunks(({a},), ({n},)) = {out}")
+
+    return Instance("normalize_chunks[explicit sizes given as floats]", body, {}, unit="normalize_chunks", api_replay=api)
+
+
 def inst_auto_one(cfix, itemsize, via):
     """(cfix, 'auto') with symbolic limit; via: 'limit' (keyword) | 'config' | 'bytes' (string spec)"""
 
@@ -273,7 +307,7 @@ def inst_prev(itemsize, nmax, limmax, mprev):
 def instances(tier):
     q = tier == "quick"
     out = [inst_ints(k) for k in ("scalar", "tuple", "dict", "neg1", "none", "mixed")]
-    out += [inst_explicit(1, 1), inst_explicit(2, 1), inst_explicit(2, 3)]
+    out += [inst_explicit(1, 1), inst_explicit(2, 1), inst_explicit(2, 3), inst_explicit_fractional()]
     for cfix in (1, 2, 3) if not q else (1, 3):
         for itemsize in (1, 8):
             out.append(inst_auto_one(cfix, itemsize, "limit"))
